@@ -294,6 +294,11 @@ func (e *Exec) constVal(c *ssa.Const) SV {
 
 func (e *Exec) abort(st *State, why string) {
 	st.aborted = why
+	if e.hooks != nil {
+		// emitted code that leaves the modelled subset: nothing is proved about it (a failed schema clause, not an engine error)
+		e.hooks.OnForbidden(e, st, nil, why)
+		return
+	}
 	e.errorf("%s: path aborted: %s", e.top.Name(), why)
 }
 
@@ -497,6 +502,22 @@ func (e *Exec) loopHeader(fr *frame, li *loopInfo, b, pred *ssa.BasicBlock, st *
 	}
 	for _, pw := range ws.points {
 		bv, ok := hst.env[pw.base]
+		if pw.arr {
+			if !ok || len(bv.L) != 4 {
+				ws.classes[pw.cls] = true
+				continue
+			}
+			for hs, srt := range e.ctx.heapSort {
+				if strings.HasPrefix(hs, pw.cls) && strings.HasPrefix(string(srt), "(Array Int (Array Int ") {
+					cur := e.heapGet(hst, hs, srt)
+					row := e.ctx.fresh("havoc."+hs, elemSort(srt))
+					loopHavocked = append(loopHavocked, hv{hs, row})
+					hst.heap[hs] = e.ctx.def("h", Store(cur, bv.L[0], row))
+					hst.written[hs] = true
+				}
+			}
+			continue
+		}
 		if !ok || len(bv.L) != 1 {
 			ws.classes[pw.cls] = true
 			continue
@@ -504,7 +525,9 @@ func (e *Exec) loopHeader(fr *frame, li *loopInfo, b, pred *ssa.BasicBlock, st *
 		for hs, srt := range e.ctx.heapSort {
 			if strings.HasPrefix(hs, pw.cls) {
 				cur := e.heapGet(hst, hs, srt)
-				hst.heap[hs] = e.ctx.def("h", Store(cur, bv.L[0], e.ctx.fresh("havoc."+hs, elemSort(srt))))
+				cell := e.ctx.fresh("havoc."+hs, elemSort(srt))
+				loopHavocked = append(loopHavocked, hv{hs, cell})
+				hst.heap[hs] = e.ctx.def("h", Store(cur, bv.L[0], cell))
 				hst.written[hs] = true
 			}
 		}
@@ -611,6 +634,7 @@ func (e *Exec) loopHeader(fr *frame, li *loopInfo, b, pred *ssa.BasicBlock, st *
 type pointWrite struct {
 	base ssa.Value
 	cls  string // heap symbol prefix (class + field path)
+	arr  bool   // base is a slice: the write goes into its backing array (all cells of that array may change)
 }
 
 // autoBounds recognises a counting phi x of header h whose entry edge and back edge are both taken
@@ -724,7 +748,11 @@ func (e *Exec) writeSet(fr *frame, li *loopInfo) writeSet {
 		for _, in := range b.Instrs {
 			if st, ok := in.(*ssa.Store); ok {
 				if base, cls, ok := pointBase(st.Addr); ok && !li.body[base.(ssa.Instruction).Block()] {
-					ws.points = append(ws.points, pointWrite{base, cls})
+					ws.points = append(ws.points, pointWrite{base: base, cls: cls})
+					continue
+				}
+				if base, cls, ok := arrayBase(st.Addr); ok && !li.body[base.(ssa.Instruction).Block()] {
+					ws.points = append(ws.points, pointWrite{base: base, cls: cls, arr: true})
 					continue
 				}
 			}
@@ -932,6 +960,39 @@ func pointBase(addr ssa.Value) (ssa.Value, string, bool) {
 		return nil, "", false
 	}
 	return v, "H:" + typeKey(pt.Elem()) + "#" + path, true
+}
+
+// arrayBase: a store into an element (or a field of an element) of a slice that is an SSA value:
+// returns the slice value and the heap symbol prefix of the element class.
+func arrayBase(addr ssa.Value) (ssa.Value, string, bool) {
+	path := ""
+	v := addr
+	for {
+		fa, ok := v.(*ssa.FieldAddr)
+		if !ok {
+			break
+		}
+		st := fa.X.Type().Underlying().(*types.Pointer).Elem()
+		path = "." + st.Underlying().(*types.Struct).Field(fa.Field).Name() + path
+		v = fa.X
+	}
+	ia, ok := v.(*ssa.IndexAddr)
+	if !ok {
+		return nil, "", false
+	}
+	sl, ok := ia.X.Type().Underlying().(*types.Slice)
+	if !ok {
+		return nil, "", false
+	}
+	if _, ok := ia.X.(ssa.Instruction); !ok {
+		return nil, "", false
+	}
+	switch ia.X.(type) {
+	case *ssa.MakeSlice, *ssa.Call, *ssa.Slice:
+	default:
+		return nil, "", false
+	}
+	return ia.X, "A:" + typeKey(sl.Elem()) + "#" + path, true
 }
 
 // localRoot returns the non-escaping local an address is rooted at, if any.
